@@ -132,6 +132,7 @@ type c13op struct {
 	// observations
 	errClass string
 	errText  string
+	panicked string
 	obsModel string // same format as the Lean model answer
 	obsSpec  string // same format as the Lean spec answer
 	native   []string
@@ -142,6 +143,7 @@ type c13op struct {
 }
 
 type c13sess struct {
+	direct   bool // no session: response.NewResponse / Record / AppendResponse called directly
 	network  bool
 	drvGiven bool
 	drv      []string
@@ -212,7 +214,7 @@ func c13ParseLine(line string) (*c13sess, error) {
 		return out, nil
 	}
 	o := &c13op{api: f[1], class: "replay", pattern: "replay"}
-	s := &c13sess{network: strings.HasPrefix(f[1], "n."), ops: []*c13op{o}}
+	s := &c13sess{network: strings.HasPrefix(f[1], "n."), direct: strings.HasPrefix(f[1], "d."), ops: []*c13op{o}}
 	var err error
 	if s.drv, err = unlist(f[2]); err != nil {
 		return nil, err
@@ -693,7 +695,92 @@ func (o *c13op) nativeMulti(m *response.MultiResponse, eff []string, dom bool) {
 	}
 }
 
+// c13RunDirect drives the response package alone: one Response per (command, output) pair is
+// recorded and appended to a MultiResponse. Outputs are arbitrary bytes here (no channel in between).
+func c13RunDirect(s *c13sess) {
+	for _, o := range s.ops {
+		func() {
+			defer func() {
+				if p := recover(); p != nil {
+					o.panicked = fmt.Sprint(p)
+					o.errClass, o.errText = "panic", o.panicked
+					o.obsModel, o.obsSpec = "Epanic", "Epanic"
+				}
+			}()
+			eff := s.drv
+			dom := !c13ContainsAny("", eff)
+			m := response.NewMultiResponse("h")
+			for i, c := range o.cmds {
+				r := response.NewResponse(c, "h", 22, append([]string{}, eff...))
+				r.Record([]byte(o.outs[i]))
+				m.AppendResponse(r)
+			}
+			o.errClass = "nil"
+			o.user = o.cmds
+			o.nativeMulti(m, eff, dom)
+			var rs, bits []string
+			for _, r := range m.Responses {
+				rs = append(rs, c13ShowResp(r))
+				bits = append(bits, c13Bit(r != nil && r.Failed != nil))
+			}
+			sent := c13ShowSent(o.cmds)
+			o.obsModel = sent + "|R" + c13JoinOr("/", rs) + "|F" + c13ShowFailure(m.Failed)
+			o.obsSpec = sent + "|B" + c13JoinOr("", bits) + "|M" + c13Bit(m.Failed != nil) + "|I" + c13Members(m.Failed)
+		}()
+	}
+}
+
+func c13GenDirect(r *vlib.Rng) *c13sess {
+	alpha := []byte("aab\n ")
+	s := &c13sess{direct: true, drvGiven: true, mode: "privilege-exec"}
+	for i, n := 0, r.Intn(4); i < n; i++ {
+		s.drv = append(s.drv, string(r.Bytes(r.Range(1, 3), alpha)))
+	}
+	o := &c13op{api: "d.multi", class: "direct", pattern: "random"}
+	if len(s.drv) > 0 && r.Chance(1, 20) {
+		s.drv[r.Intn(len(s.drv))] = ""
+		o.class = "empty-failure-string"
+	}
+	for i, n := 0, r.Range(1, 5); i < n; i++ {
+		o.cmds = append(o.cmds, "c"+strconv.Itoa(i))
+		o.outs = append(o.outs, string(r.Bytes(r.Intn(9), alpha)))
+	}
+	s.ops = []*c13op{o}
+	return s
+}
+
+// every needle of 1-3 bytes over {a,b} against every haystack of 0-5 bytes over {a,b}
+func c13ExhaustiveDirect() []*c13sess {
+	var words func(n int) []string
+	words = func(n int) []string {
+		if n == 0 {
+			return []string{""}
+		}
+		var out []string
+		for _, w := range words(n - 1) {
+			out = append(out, w+"a", w+"b")
+		}
+		return out
+	}
+	var out []*c13sess
+	for nl := 1; nl <= 3; nl++ {
+		for _, needle := range words(nl) {
+			for hl := 0; hl <= 5; hl++ {
+				for _, hay := range words(hl) {
+					out = append(out, &c13sess{direct: true, drvGiven: true, drv: []string{needle}, mode: "privilege-exec",
+						ops: []*c13op{{api: "d.multi", class: "direct-exhaustive", pattern: "exhaustive", cmds: []string{"c"}, outs: []string{hay}}}})
+				}
+			}
+		}
+	}
+	return out
+}
+
 func c13RunSession(s *c13sess) {
+	if s.direct {
+		c13RunDirect(s)
+		return
+	}
 	dev := newC13Dev(s.network, s.mode, s.seg)
 	dev.Start()
 	opts := []util.Option{options.WithCustomTransport(dev), options.WithAuthBypass(),
@@ -787,20 +874,28 @@ func c13RunSession(s *c13sess) {
 		var err error
 		var one *response.Response
 		var multi *response.MultiResponse
-		switch o.api {
-		case "g.cmd", "n.cmd":
-			one, err = api.SendCommand(o.cmds[0], oo...)
-		case "g.cmds", "n.cmds":
-			multi, err = api.SendCommands(o.cmds, oo...)
-		case "g.file", "n.file":
-			multi, err = api.SendCommandsFromFile(path, oo...)
-		case "n.cfgs":
-			multi, err = nd.SendConfigs(o.cmds, oo...)
-		case "n.cfgfile":
-			multi, err = nd.SendConfigsFromFile(path, oo...)
-		case "n.cfg":
-			one, err = nd.SendConfig(strings.Join(o.cmds, "\n"), oo...)
-		}
+		func() {
+			// a panic in the calling goroutine (e.g. indexing an empty response list) is an observation
+			defer func() {
+				if p := recover(); p != nil {
+					o.panicked = fmt.Sprint(p)
+				}
+			}()
+			switch o.api {
+			case "g.cmd", "n.cmd":
+				one, err = api.SendCommand(o.cmds[0], oo...)
+			case "g.cmds", "n.cmds":
+				multi, err = api.SendCommands(o.cmds, oo...)
+			case "g.file", "n.file":
+				multi, err = api.SendCommandsFromFile(path, oo...)
+			case "n.cfgs":
+				multi, err = nd.SendConfigs(o.cmds, oo...)
+			case "n.cfgfile":
+				multi, err = nd.SendConfigsFromFile(path, oo...)
+			case "n.cfg":
+				one, err = nd.SendConfig(strings.Join(o.cmds, "\n"), oo...)
+			}
+		}()
 		o.dur = time.Since(t0)
 		if path != "" && !o.noFile {
 			os.Remove(path)
@@ -811,6 +906,11 @@ func c13RunSession(s *c13sess) {
 			o.stray = append([]string{}, dev.stray...)
 		})
 		o.errClass = c13ErrClass(err)
+		if o.panicked != "" {
+			o.errClass, o.errText = "panic", o.panicked
+			o.obsModel, o.obsSpec = "Epanic", "Epanic"
+			continue
+		}
 		if err != nil {
 			o.errText = err.Error()
 			o.obsModel, o.obsSpec = "E"+o.errClass, "E"+o.errClass
@@ -829,6 +929,12 @@ func c13RunSession(s *c13sess) {
 			o.obsModel = sent + "|R" + c13ShowResp(one)
 			if one != nil {
 				o.obsSpec = sent + "|M" + c13Bit(one.Failed != nil) + "|I" + c13Members(one.Failed)
+				// the collapsed response is itself a response: failed iff its own output contains a
+				// failure string in force (theorem sendConfig_failed_iff; needs LF-free strings)
+				if dom && !strings.Contains(strings.Join(eff, ""), "\n") && (one.Failed != nil) != c13ContainsAny(one.Result, eff) {
+					o.native = append(o.native, fmt.Sprintf("collapsed response: Failed=%v but its output %q contains-one-of %q = %v",
+						one.Failed != nil, one.Result, eff, c13ContainsAny(one.Result, eff)))
+				}
 			}
 		default:
 			if multi == nil {
@@ -862,7 +968,7 @@ func c13DropBits(spec string) string {
 
 func runC13(c *ctx) {
 	res := c.res
-	res.Rule = "sessions of 1-4 operations on real generic/network drivers over the CLI simulator: SendCommand(s)/FromFile, SendConfigs/FromFile, SendConfig x driver-level list (absent/empty/1-3 strings) x operation-level list (absent/empty/1-3 strings) x stop-on-failed x 1-7 (thorough -14) commands (some empty) x failure placement none/first/middle/last/several/all/random x outputs embedding in-force strings, not-in-force strings, near misses (prefix, case, split over lines) x read segmentation; malformed stream: empty lists/files, missing files, empty failure strings. non-trivial = in-domain operation with >= 2 commands or any failed response; distinct by case line"
+	res.Rule = "sessions of 1-4 operations on real generic/network drivers over the CLI simulator: SendCommand(s)/FromFile, SendConfigs/FromFile, SendConfig x driver-level list (absent/empty/1-3 strings) x operation-level list (absent/empty/1-3 strings) x stop-on-failed x 1-7 (thorough -14) commands (some empty) x failure placement none/first/middle/last/several/all/random x outputs embedding in-force strings, not-in-force strings, near misses (prefix, case, split over lines) x read segmentation; malformed stream: empty lists/files, missing files, empty failure strings; direct tie of response.NewResponse/Record/AppendResponse on arbitrary byte outputs over {a,b,LF,space} (random) and every needle of 1-3 bytes x every output of 0-5 bytes over {a,b} (exhaustive). non-trivial = in-domain operation with >= 2 commands or any failed response; distinct by case line"
 	var sessions []*c13sess
 	if c.replay != "" {
 		s, err := c13ParseLine(c.replay)
@@ -872,11 +978,15 @@ func runC13(c *ctx) {
 		}
 		sessions = append(sessions, s)
 	} else {
-		for i, n := 0, c.n(700, 40000); i < n; i++ {
+		for i, n := 0, c.n(2000, 40000); i < n; i++ {
 			sessions = append(sessions, c13GenSession(c.rng, c.thorough(), false))
 		}
-		for i, n := 0, c.n(80, 3000); i < n; i++ {
+		for i, n := 0, c.n(200, 3000); i < n; i++ {
 			sessions = append(sessions, c13GenSession(c.rng, c.thorough(), true))
+		}
+		sessions = append(sessions, c13ExhaustiveDirect()...)
+		for i, n := 0, c.n(3000, 100000); i < n; i++ {
+			sessions = append(sessions, c13GenDirect(c.rng))
 		}
 	}
 	// run the real code, sessions in parallel (each session is independent and deterministic)
@@ -914,6 +1024,9 @@ func runC13(c *ctx) {
 			if s.network {
 				drvKind = "network"
 			}
+			if s.direct {
+				drvKind = "response-package"
+			}
 			res.Count("api:" + o.api)
 			res.Count("class:" + o.class)
 			res.Count("placement:" + o.pattern)
@@ -936,11 +1049,11 @@ func runC13(c *ctx) {
 				res.Count("driver-list:given")
 			}
 			res.Count("seg:" + strconv.Itoa(s.seg))
-			if len(a) != 4 {
+			if len(a) != 5 {
 				res.Fail("machinery", line, "driver answered "+ans[k-1], "driver")
 				continue
 			}
-			dom, spec, model := a[0] == "1", a[2], a[3]
+			dom, spec, model, agree := a[0] == "1", a[2], a[3], a[4] == "1"
 			if o.noFile {
 				// the model does not cover file access; the property says nothing either
 				res.Case(line, false)
@@ -987,12 +1100,6 @@ func runC13(c *ctx) {
 			if o.isCfg() {
 				specCmp = c13DropBits(spec)
 			}
-			// theorem sanity: on in-domain cases the model must satisfy the spec. The model's answer
-			// starts with the same sent-list section.
-			if dom && strings.SplitN(spec, "|", 2)[0] != strings.SplitN(model, "|", 2)[0] {
-				res.Fail("machinery", line, "model and spec disagree on the transmitted commands: spec "+spec+" model "+model, "model-vs-spec")
-				continue
-			}
 			// oracle: the property's statement on the implementation (in-domain only)
 			if dom {
 				if o.errClass != "nil" && spec != "E"+o.errClass {
@@ -1008,6 +1115,11 @@ func runC13(c *ctx) {
 					continue
 				}
 			}
+			// theorem sanity: the implementation satisfies the property on this in-domain case; the
+			// model of the code must do so too (a difference is a bug in the model or the theorems)
+			if dom && !agree {
+				res.Fail("machinery", line, "the model does not satisfy the spec on an in-domain case the implementation satisfies: spec "+spec+" model "+model, "model-vs-spec")
+			}
 			// correspondence: implementation vs model of the code, in and out of domain
 			if o.obsModel != model {
 				res.Fail("correspondence", line, fmt.Sprintf("impl  %s\nmodel %s\ncommands %q outputs %q", o.obsModel, model, o.cmds, o.outs), "impl-vs-model:"+o.api)
@@ -1016,6 +1128,8 @@ func runC13(c *ctx) {
 	}
 	res.TracesVsImpl = k
 	res.Note("slowest operation %v", slowest.Round(time.Millisecond))
+	res.Note("empty failure strings (out of the property's domain) are compared with the model for information: the code marks nothing for them and they hide later entries (theorem empty_failure_string_masks)")
+	res.Note("an empty command is never generated as the first command of an operation: with no echo to wait for, the channel takes a still unread earlier prompt for the answer (observed on the unchanged tree; C01's subject, not C13's)")
 }
 
 // c13Sig classifies an oracle failure by the first section of the observation that differs
